@@ -39,7 +39,7 @@ def decide(pid, tier, units, scratch, run_unit):
                 results.append((u, r))
     for u, r in results:
         cc = r.get('crosscheck')
-        if r['status'] == 'ok' and cc and not cc.get('agree'):
+        if r['status'] == 'ok' and cc and cc.get('agree') is False:
             r['status'] = 'undecided'
             r['reason'] = 'thorough cross-check: the second back end (%s) does not reproduce the obligation statuses (%s %s)' % (cc.get('solver'), cc.get('status'), cc.get('reason', '')[:200])
     undecided = [(u, r) for u, r in results if r['status'] != 'ok']
